@@ -43,7 +43,11 @@ func init() {
 			"thorough: memory x all 7 subsets of a,s,w x 9^3, Secret backend x subsets of >=2 x 7^3, memory x {cr, a+cr} x 9^2 on all contexts, memory x chart a+s+w+cr x 7^4, Secret backend x {cr, a+cr} x 7^2. " +
 			"From every state reached by the operation under test the follow-ups uninstall, rollback, upgrade-updating-the-slots and upgrade-removing-the-slots are executed; " +
 			"every transition is the real action on a clone of the state; states = canonical worlds. distinct = (backend, context, chart, take-ownership, placement vector, step); " +
-			"non-trivial = at least one slot occupied (counter cases_with_occupied_chart_slot)",
+			"non-trivial = at least one slot occupied (counter cases_with_occupied_chart_slot). " +
+			"Mid-operation injection family: {install of one slot, install of two slots adopting an owned one, upgrade adding a slot, rollback re-creating a slot} (take-ownership off) x slot in {a,s,w,cr} x " +
+			"injected object kind in {foreign,other-release,other-ns} (thorough: all 7 not-owned kinds, + Secret backend) x every call position k of the operation's plain run " +
+			"(another actor creates the object right before call k is handled, via the server's gate); oracle: what was not owned when Helm first wrote to its path is byte-identical afterwards, " +
+			"and an injection before the ownership check is refused without mutation",
 		Run:    run,
 		Replay: replay,
 		Assumptions: []string{
@@ -51,6 +55,7 @@ func init() {
 			"'would be created' is computed from the chart's static documents minus the documents of the currently deployed revision, with an independent YAML parser and path table",
 			"ownership of a live object is judged by an independent 10-line reference (managed-by label + both release annotations), never by Helm's checkOwnership",
 			"no faults are injected, --atomic / --cleanup-on-fail (which delete what the failing operation itself created) are not part of the alphabet",
+			"mid-operation injections happen at request granularity (before a request/storage call/wait is handled), one injected object per operation, take-ownership off",
 			"hook objects are not ownership-checked by Helm and the statement allows deleting them; no pre-existing object is placed on the hook's name",
 		},
 		RequiredFloors: []string{
@@ -59,6 +64,7 @@ func init() {
 			"delete-checked", "hook-delete-checked", "bystander-compared", "uninstall-ok", "rollback-ok", "upgrade-removes-slots", "upgrade-updates-slots",
 			"uninstall-after-refusal", "rollback-recreates",
 			"refused-cluster-scoped-other-ns:install", "refused-cluster-scoped-other-ns:replace", "refused-cluster-scoped-other-ns:upgrade", "takeover-cluster-scoped",
+			"inject:install", "inject:install-adopting", "inject:upgrade", "inject:rollback", "inject-refused-pre-check", "inject-create-409", "inject-abort-not-in-original", "inject-untouched-checked",
 		},
 	})
 }
@@ -705,6 +711,8 @@ type replayData struct {
 	Path   []opspace.Step `json:"path"`
 	Key    string         `json:"key"`
 	Tier   string         `json:"tier"`
+	// Inject, when set, is the mid-operation environment step of the last step of Path (inject.go).
+	Inject *injectSpec `json:"inject,omitempty"`
 }
 
 func pathStrings(path []opspace.Step) []string {
@@ -784,6 +792,10 @@ func replay(c *core.Ctx, data json.RawMessage) []core.Violation {
 	var rd replayData
 	if err := json.Unmarshal(data, &rd); err != nil {
 		return nil
+	}
+	if rd.Inject != nil {
+		replayInjected(c, rd)
+		return core.FilterKey(c.TakeViolations(), rd.Key)
 	}
 	for _, t := range runPath(rd.Driver, rd.Path) {
 		report(c, t, eval(t), false)
@@ -932,6 +944,7 @@ func run(c *core.Ctx) {
 			}
 		}
 	}
+	x.injectFamily()
 }
 
 func (x *explorer) scenario(drv string, cx ctxDef, mask int, pl placement) {
